@@ -5,8 +5,10 @@ import json, os, shutil, subprocess, sys, time
 V = os.path.dirname(os.path.dirname(os.path.abspath(__file__)))
 prop, which = sys.argv[1], sys.argv[2]
 tier = sys.argv[sys.argv.index("--tier") + 1] if "--tier" in sys.argv else "quick"
-src = "/tmp/seeds/out/%s/%s" % (prop, which)
-dst = os.path.join(V, "seeded", "%s-%s" % (prop, which))
+rnd = sys.argv[sys.argv.index("--round") + 1] if "--round" in sys.argv else "1"
+src = ("/tmp/seeds/out/%s/%s" if rnd == "1" else "/tmp/seeds/out2/%s/%s") % (prop, which)
+tag = which if rnd == "1" else "r%s%s" % (rnd, which)
+dst = os.path.join(V, "seeded", "%s-%s" % (prop, tag))
 if not os.path.isdir(src) and os.path.isdir(dst):
     src = dst
 p = subprocess.run([os.path.join(V, "tools", "confirm_seed.sh"), src], capture_output=True, text=True)
@@ -30,7 +32,7 @@ except Exception:
 meta_path = os.path.join(dst, "meta.json")
 meta = json.load(open(meta_path)) if os.path.exists(meta_path) else {}
 meta.update({
-    "property": prop, "id": "%s-%s" % (prop, which),
+    "property": prop, "id": "%s-%s" % (prop, tag),
     "summary": notes.get("summary", meta.get("summary", "")),
     "needs_to_manifest": notes.get("needs", meta.get("needs_to_manifest", "")),
     "written_by": "independent sub-agent given only the property text and its own scratch worktree of /repo",
@@ -38,7 +40,7 @@ meta.update({
     "confirmation": "tools/confirm_seed.sh: demo passes on the unchanged tree, patch applies, cmake build + 29/29 ctest entries pass with the change, demo fails with the change" if confirmed else "NOT confirmed: " + conf_tail[-400:],
 })
 runs = meta.setdefault("check_runs", [])
-runs.append({"command": "tools/mutant.py %s seeded/%s-%s/patch.diff --tier %s" % (prop, prop, which, tier), "verdict": verdict,
+runs.append({"command": "tools/mutant.py %s seeded/%s-%s/patch.diff --tier %s" % (prop, prop, tag, tier), "verdict": verdict,
              "wall_s": round(time.time() - t0, 1), "detail": [l[:300] for l in out[-3:]]})
 json.dump(meta, open(meta_path, "w"), indent=1)
-print("SEED %s-%s confirmed=%s check=%s" % (prop, which, confirmed, verdict))
+print("SEED %s-%s confirmed=%s check=%s" % (prop, tag, confirmed, verdict))
